@@ -337,7 +337,8 @@ pub fn term_sem(t: &Term, e: &CEnv) -> Option<bool> {
             }
         }
         Term::X(neg, text) => {
-            let member = pep508_rs::ExtraName::from_str(text).ok().map(|n| e.extras().contains(&n)).unwrap_or(false);
+            // (validity and normal form by the independent reading of the name rules, not by the crate's constructor)
+            let member = crate::names::spec(text).map(|n| e.extras.iter().any(|a| crate::names::spec(a).as_deref() == Some(n.as_str()))).unwrap_or(false);
             member != *neg
         }
         Term::And(a, b) => match (term_sem(a, e), term_sem(b, e)) {
